@@ -28,6 +28,9 @@ type CorpusFile struct {
 	// Big: far larger than any internal buffer (tens of KiB); faults are enumerated
 	// around buffer-size boundaries and at a stride instead of at every offset
 	Big bool
+	// Huge: hundreds of KiB.  Only the header's fields, the first bytes and lines and
+	// the offsets around the ends and the 64 KiB boundaries are faulted.
+	Huge bool
 }
 
 func tri(a, b, c [3]float64) *model3d.Triangle {
@@ -283,6 +286,21 @@ func BuildCorpus() []*CorpusFile {
 		d = model3d.EncodePLY(smallMesh(700), colorOf) // ~80 KiB of text
 		add("ply_mesh_700", "plymesh", d, nil)
 		c[len(c)-1].Big = true
+	}
+	{
+		// more vertex lines than any capacity clamp a reader may apply to the declared
+		// count (65536 is the usual one): the header counts are fields, so the
+		// count faults (huge, negative, 64-bit limits) hit a file that really is long
+		var b strings.Builder
+		b.WriteString("OFF\n66000 2 0\n")
+		hdr := b.Len()
+		for i := 0; i < 66000; i++ {
+			b.WriteString([]string{"0 0 0\n", "1 0 0\n", "0 1 0\n", "0 0 1\n", "2 2 1\n"}[i%5])
+		}
+		b.WriteString("3 0 1 2\n3 65997 65998 65999\n")
+		d := []byte(b.String())
+		add("off_66000", "off", d, tokenFields(d[:hdr]))
+		c[len(c)-1].Big, c[len(c)-1].Huge = true, true
 	}
 	d := offTetra(false)
 	add("off_tetra", "off", d, tokenFields(d))
